@@ -6,6 +6,7 @@ import (
 	"go/token"
 	"go/types"
 	"sort"
+	"strconv"
 	"strings"
 
 	"golang.org/x/tools/go/ssa"
@@ -530,6 +531,110 @@ func c11(r *Report) {
 		}
 		if f := r.Use("h2/grpc", "emitter.Header"); f != nil {
 			passthrough(f, "Header", false)
+		}
+		// a stream is taken for gRPC only on an exact content-type: every way
+		// into the statement that marks the stream is the true edge of
+		// `value == "<const>"`, or of a prefix test whose constant ends in the
+		// subtype delimiter ("application/grpc+"), never a bare prefix or
+		// substring test that "application/grpc-web" also satisfies
+		hdrField := func(v ssa.Value, name string) bool {
+			return anyIn(w.backSlice(v, flowOpt{}), func(x ssa.Value) bool {
+				switch y := x.(type) {
+				case *ssa.Field:
+					return fieldObjV(y).Name() == name && strings.HasSuffix(y.X.Type().String(), "hpack.HeaderField")
+				case *ssa.FieldAddr:
+					return fieldObj(y).Name() == name && strings.HasSuffix(y.X.Type().String(), "hpack.HeaderField")
+				}
+				return false
+			})
+		}
+		var marks []ssa.Instruction
+		for _, in := range instrs(ah) {
+			if c, ok := in.(*ssa.Call); ok && strings.HasPrefix(calleeName(c), "sync/atomic.Store") && len(c.Call.Args) == 2 {
+				if fa, isFa := unwrapLoad(c.Call.Args[0]).(*ssa.FieldAddr); isFa && fieldObj(fa).Name() == "enabled" {
+					marks = append(marks, in)
+				}
+			}
+			if st, ok := in.(*ssa.Store); ok {
+				if fa, isFa := st.Addr.(*ssa.FieldAddr); isFa && fieldObj(fa).Name() == "enabled" {
+					marks = append(marks, in)
+				}
+			}
+		}
+		if len(marks) == 0 {
+			r.Undecided("(*M/h2/grpc.adapter).Header: marks the stream as gRPC", "UNRESOLVED: no store to the enabled flag")
+		}
+		for _, m := range marks {
+			bad := ""
+			seen := map[*ssa.BasicBlock]bool{}
+			var walk func(b *ssa.BasicBlock)
+			walk = func(b *ssa.BasicBlock) {
+				if seen[b] || bad != "" {
+					return
+				}
+				seen[b] = true
+				if len(b.Preds) == 0 {
+					bad = "without any content-type test"
+					return
+				}
+				for _, p := range b.Preds {
+					iff, isIf := p.Instrs[len(p.Instrs)-1].(*ssa.If)
+					if !isIf || p.Succs[0] == p.Succs[1] {
+						walk(p)
+						continue
+					}
+					taken := p.Succs[0] == b
+					switch c := iff.Cond.(type) {
+					case *ssa.BinOp:
+						k, isK := constString(c.Y)
+						other := c.X
+						if !isK {
+							k, isK = constString(c.X)
+							other = c.Y
+						}
+						if isK && (c.Op == token.EQL || c.Op == token.NEQ) && hdrField(other, "Value") {
+							if anyIn(w.backSlice(other, flowOpt{}), func(x ssa.Value) bool { _, isSl := x.(*ssa.Slice); return isSl }) {
+								bad = "on a comparison of a part of the content-type with " + strconv.Quote(k)
+								return
+							}
+							if (c.Op == token.EQL) == taken {
+								continue // exact value
+							}
+							bad = "on the edge where the content-type differs from " + strconv.Quote(k)
+							return
+						}
+						if isK && hdrField(other, "Name") {
+							if (c.Op == token.EQL) == taken {
+								bad = "for any value of the content-type header"
+								return
+							}
+						}
+					case *ssa.Call:
+						switch calleeName(c) {
+						case "strings.HasPrefix":
+							if k, isK := constString(c.Call.Args[1]); isK && hdrField(c.Call.Args[0], "Value") {
+								if taken && (strings.HasSuffix(k, "+") || strings.HasSuffix(k, ";")) {
+									continue
+								}
+								bad = "for every content-type that merely starts with " + strconv.Quote(k) + " (application/grpc-web... are not gRPC)"
+								return
+							}
+						case "strings.EqualFold":
+							if taken {
+								continue
+							}
+						case "strings.Contains", "strings.HasSuffix", "strings.Index", "strings.ContainsAny":
+							if hdrField(c.Call.Args[0], "Value") {
+								bad = "on a substring test of the content-type"
+								return
+							}
+						}
+					}
+					walk(p)
+				}
+			}
+			walk(m.Block())
+			r.Decide("path", "(*M/h2/grpc.adapter).Header: a stream is marked gRPC only on an exact content-type", bad == "", "every edge into the marking statement is the true edge of an equality (or delimiter-terminated prefix) test of the content-type value", "the stream is treated as gRPC "+bad+": streams that are not gRPC are re-framed or swallowed instead of passing through untouched", m.Pos())
 		}
 	})
 
